@@ -24,7 +24,7 @@ RULE = ("all registered tunings (incl. course tunings) x every string x notes 0.
         "compositions on the non-course tunings at page widths 40..160, decoded by an own tab reader. Non-trivial: a tuning with >= 4 "
         "strings and a note reachable on >= 2 strings; a fingering query with >= 2 notes and a non-empty answer; a tab with a two-digit "
         "fret or >= 2 bars."
-        ' Also: returned notes / containers are modified before the fret table is asked again; calls that fail half-way precede fingering queries; notes carrying string / fret attributes from the same or another tuning; tracks whose own tuning differs from the one passed explicitly; one Bar object standing in two tracks of a composition that are played on different tunings; the best chord fingering returned as a container of notes (return_best_as_NoteContainer) checked through the string / fret attributes of its notes.')
+        ' Also: returned notes / containers are modified before the fret table is asked again; calls that fail half-way precede fingering queries; notes carrying string / fret attributes from the same or another tuning; tracks whose own tuning differs from the one passed explicitly; one Bar object standing in two tracks of a composition that are played on different tunings; the best chord fingering returned as a container of notes (return_best_as_NoteContainer) checked through the string / fret attributes of its notes; chord entries in bars where one note carries a wished (string, fret) position.')
 ASSUMPTIONS = ["tablature is rendered for tunings without courses only; empty bars / containers are not rendered",
                "the decode clause is applied when every entry gets at least (fret digits + 1) columns, measured on the rendered "
                "beat-marker line; narrower tabs still count for the equal-line-length clause",
@@ -329,6 +329,7 @@ def check_tab(ctx, case):
     tracks = case["tracks"] if kind == "comp" else [case["tracks"][0]]
     built, descs, ops = [], [], []
     shared_bar = [False]
+    wished = [False]
     for k, tr in enumerate(tracks):
         tt = plain[(ti + 7 * k) % len(plain)] if kind == "comp" else t
         o = _open(tt)
@@ -352,7 +353,18 @@ def check_tab(ctx, case):
                 ps = _entry_pitches(o, e["pos"]) if e["pos"] else None
                 if share and k == 0 and bi == 0 and ps:
                     ps = ps[:1]
-                if not b.place_notes(NoteContainer([Note(p) for p in ps]) if ps else None, RV.number(e["v"])):
+                objs = [Note(p) for p in ps] if ps else None
+                if ps and e.get("wish"):
+                    # one note of the entry asks for a position of its own (string / fret attributes that are valid on this
+                    # tuning): honoured or not, the entry must still read back as exactly its pitches
+                    wi, pick = e["wish"]
+                    wp = ps[wi % len(ps)]
+                    cands = [(s_, wp - o_) for s_, o_ in enumerate(o) if 0 <= wp - o_ <= 24]
+                    if cands:
+                        s_, f_ = cands[pick % len(cands)]
+                        objs[wi % len(ps)] = tt.get_Note(s_, f_)
+                        wished[0] = True
+                if not b.place_notes(NoteContainer(objs) if ps else None, RV.number(e["v"])):
                     break
                 es.append((e["v"], ps))
             if not es:
@@ -398,7 +410,7 @@ def check_tab(ctx, case):
         two_digit = two_digit or any(re_two(l) for l in lines)
     nbars = sum(len(d) for d in descs)
     ctx.note_case(wide and (two_digit or nbars >= 2), ["tab:" + kind, "tab:decoded" if wide else "tab:too-narrow-for-decoding"] +
-                  (["tab:one-bar-object-in-two-tracks"] if shared_bar[0] else []))
+                  (["tab:one-bar-object-in-two-tracks"] if shared_bar[0] else []) + (["tab:entry-with-wished-position"] if wished[0] else []))
 
 
 def re_two(line):
@@ -506,7 +518,8 @@ def _pos_st():
 
 def _tab_st():
     vals = st.sampled_from([[1, 0, 1, 1], [2, 0, 1, 1], [4, 0, 1, 1], [4, 0, 1, 1], [8, 0, 1, 1], [2, 1, 1, 1], [4, 1, 1, 1], [16, 0, 1, 1]])
-    entry = st.fixed_dictionaries({"v": vals, "pos": st.none() | _pos_st() | _pos_st()})
+    entry = st.fixed_dictionaries({"v": vals, "pos": st.none() | _pos_st() | _pos_st()},
+                                  optional={"wish": st.tuples(st.integers(0, 3), st.integers(0, 5)).map(list)})
     bar = st.fixed_dictionaries({"meter": st.sampled_from([[4, 4], [3, 4], [2, 4], [6, 8], [2, 2], [5, 4]]), "entries": st.lists(entry, min_size=1, max_size=8)})
     track = st.lists(bar, min_size=1, max_size=5)
     width = st.sampled_from([40, 60, 61, 80, 100, 120, 121, 160]) | st.integers(40, 160)
